@@ -205,10 +205,15 @@ def dialect_for(game, version):
     return 'wowsNew' if comps >= (12, 6, 0) else 'wowsOld'
 
 
-def build(rng, game, version, views, rich=False):
-    """-> (Battle, expectation dict)"""
+def build(rng, game, version, views, rich=False, ids=None):
+    """-> (Battle, expectation dict). `ids` optionally supplies entity ids (avatar, logic, vehicles...)"""
+    global AVATAR_ID, LOGIC_ID, VEHICLE_BASE
     b = Battle(rng, game, version, views, dialect_for(game, version))
     exp = {}
+    ids = list(ids or [])
+    AVATAR_ID = ids.pop(0) if ids else 1000
+    LOGIC_ID = ids.pop(0) if ids else 2000
+    b.extra_ids = ids
     b.player(AVATAR_ID)
     b.trace.append(['player', AVATAR_ID])
     exp['player_id'] = AVATAR_ID
@@ -228,6 +233,8 @@ def build(rng, game, version, views, rich=False):
     # --- entities the summary reads
     n_vehicles = rng.randint(2, 4) if rich else 1
     vehicles = [VEHICLE_BASE + i for i in range(n_vehicles)]
+    for i in range(min(len(vehicles), len(b.extra_ids))):
+        vehicles[i] = b.extra_ids[i]
     # --- roster
     players = []
     for i, vid in enumerate(vehicles):
@@ -268,6 +275,14 @@ def build(rng, game, version, views, rich=False):
         b.trace.append(['arena', arena_id])
         for p in players:
             b.trace.append(['roster', p['id'], [[k, json.dumps(v)] for k, v in p.items()]])
+    # pose packets for every entity (ids may come from the literal dictionary)
+    for eid in [AVATAR_ID] + vehicles:
+        if -2 ** 31 <= eid < 2 ** 31:
+            b.position(eid)
+    if 'ppos' in b.tab and -2 ** 31 <= AVATAR_ID < 2 ** 31:
+        pos = history.vec3(rng)
+        b.emit('ppos', struct.pack('<ii', AVATAR_ID, 0) + history.pack_bits(pos) + history.pack_bits([0, 0, 0]), id1=AVATAR_ID, id2=0)
+        b.emit('ppos', struct.pack('<ii', AVATAR_ID, vehicles[0]) + history.pack_bits(pos) + history.pack_bits([0, 0, 0]), id1=AVATAR_ID, id2=vehicles[0])
     if not rich or rows is None:
         return b, exp
     ver = tuple(int(x) for x in version.split('_')[:3])
